@@ -88,6 +88,14 @@ func (c *Ctx) layoutInFunc(pk *packages.Package, file *ast.File, fd *ast.FuncDec
 		}
 		return true
 	})
+	// counted loops `for i := 0; i < len(X); i++` bind i to positions of X exactly like `for i := range X`
+	for _, l := range c.absLoops(fd.Body, nil) {
+		if _, isFor := l.stmt.(*ast.ForStmt); isFor && l.idx != nil && l.start == nil {
+			if _, dup := rngKey[l.idx]; !dup {
+				rngKey[l.idx] = l.seqRaw
+			}
+		}
+	}
 	single := func(o types.Object) ast.Expr {
 		if len(defs[o]) == 1 {
 			return defs[o][0]
